@@ -6,6 +6,8 @@ import (
 	"net"
 	"os"
 	"sync"
+	"sync/atomic"
+	"time"
 )
 
 // A cutting proxy between one plugin and the runtime: a unix-socket forwarder
@@ -35,28 +37,29 @@ type frameInfo struct {
 type pdir struct {
 	mu sync.Mutex
 	// frame parser over every byte that arrived in this direction
-	hdr      [8]byte
-	hdrGot   int
-	payLeft  int
-	sinceMk  int // bytes arrived since the last mark
-	frames   []frameInfo
-	armed    bool
-	remain   int
-	inject   []byte // written back towards the sender of this direction just before the cut
-	forwarded int // bytes forwarded since the last mark
+	hdr       [8]byte
+	hdrGot    int
+	payLeft   int
+	sinceMk   int // bytes arrived since the last mark
+	frames    []frameInfo
+	armed     bool
+	remain    int
+	inject    []byte // written back towards the sender of this direction just before the cut
+	forwarded int    // bytes forwarded since the last mark
 }
 
 type proxy struct {
-	path   string
-	target string
-	l      net.Listener
-	connMu sync.Mutex
-	a, b   net.Conn // a: plugin side, b: runtime side
-	wmu    sync.Mutex // serialises forwarding writes of both directions with inject+cut: an injected partial frame is the last thing its receiver gets
-	dirs   [2]*pdir
+	path    string
+	target  string
+	l       net.Listener
+	connMu  sync.Mutex
+	a, b    net.Conn   // a: plugin side, b: runtime side
+	wmu     sync.Mutex // serialises forwarding writes of both directions with inject+cut: an injected partial frame is the last thing its receiver gets
+	dirs    [2]*pdir
+	stalled atomic.Bool // the pumps stop reading: the peer behaves like a stopped process
 	cutOnce sync.Once
-	cutC   chan struct{}
-	ready  chan struct{}
+	cutC    chan struct{}
+	ready   chan struct{}
 }
 
 func newProxy(path, target string) (*proxy, error) {
@@ -94,6 +97,9 @@ func (px *proxy) accept() {
 func (px *proxy) pump(d int, src, dst net.Conn) {
 	buf := make([]byte, 64*1024)
 	for {
+		for px.stalled.Load() && !px.isCut() {
+			time.Sleep(5 * time.Millisecond)
+		}
 		n, err := src.Read(buf)
 		if n > 0 {
 			if !px.forward(d, src, dst, buf[:n]) {
@@ -188,6 +194,9 @@ func (px *proxy) cut() {
 		close(px.cutC)
 	})
 }
+
+// stall makes both pumps stop reading (after the read in progress).
+func (px *proxy) stall() { px.stalled.Store(true) }
 
 func (px *proxy) isCut() bool {
 	select {
